@@ -287,6 +287,12 @@ func (s *c03State) step() bool {
 			s.tid = tid
 		case 1:
 			other := &stun.Message{TransactionID: r.TID()}
+			if r.Bool() {
+				// a source that was encoded with one id and then got another one assigned to its field (a common idiom
+				// in the repository's own tests): the field is what AddTo documents to copy
+				other = stun.MustBuild(stun.BindingRequest, stun.NewTransactionIDSetter(r.TID()))
+				other.TransactionID = r.TID()
+			}
 			s.op("Message.AddTo")
 			_ = other.AddTo(m)
 			s.tid = other.TransactionID
